@@ -44,9 +44,6 @@ import BlocV.DrvC15
 import BlocV.DrvC09
 -- END C09
 
--- BEGIN C11
-import BlocV.DrvC11
--- END C11
 
 -- BEGIN C02FE
 import BlocV.DrvFE
@@ -59,6 +56,11 @@ import BlocV.DrvC10
 -- BEGIN C05
 import BlocV.DrvC05
 -- END C05
+
+-- BEGIN C11
+import BlocV.DrvC11
+import BlocV.DrvC11S
+-- END C11
 
 open BlocV BlocV.Proto
 
@@ -116,6 +118,10 @@ def handleTok (hex reader : String) : String :=
 -- END C13
 
 def handle (words : List String) : String :=
+  -- BEGIN C11
+  if let some r := DrvC11.handle words then r else
+  if let some r := DrvC11S.handle words then r else
+  -- END C11
   -- BEGIN C05
   if let some r := DrvC05.handle words then r else
   -- END C05
@@ -128,9 +134,6 @@ def handle (words : List String) : String :=
   -- BEGIN C18F
   if let some r := DrvC18F.handle words then r else
   -- END C18F
-  -- BEGIN C11
-  if let some r := DrvC11.handle words then r else
-  -- END C11
   -- BEGIN C09
   if let some r := DrvC09.handle words then r else
   -- END C09
